@@ -461,3 +461,44 @@ def lib_ts_readonly(ctx, P, rule="LIB-TS-READONLY", tus=("trees", "genotypes", "
                        "reads the tables only" if not bad else "%s %s" % (fn.name, bad[0][1]))
     ctx.floor(rule, 50)
     return n_sites
+
+
+def alignments_window(ctx, py, rule="PY-WINDOW-OFFSET"):
+    ctx.rule(rule, "TreeSequence.alignments converts between genome coordinates and the coordinates of the requested window "
+                   "consistently: the embedded reference sequence is sliced [interval.left : interval.right] (never by the window "
+                   "length from 0), and site columns are written at `position - interval.left`")
+    m = py.mod("trees")
+    fn = py.func("trees", "TreeSequence.alignments")
+    # the name bound to the checked genomic range
+    win = None
+    for x in ast.walk(fn):
+        if isinstance(x, ast.Assign) and isinstance(x.value, ast.Call) and (ast.unparse(x.value.func)).endswith("_check_genomic_range") \
+                and isinstance(x.targets[0], ast.Name):
+            win = x.targets[0].id
+    if win is None:
+        ctx.ob(rule, "window", False, m.loc(fn), "no `<name> = self._check_genomic_range(left, right, ...)` found")
+        return 0
+    n = 0
+    slices = [s for s in ast.walk(fn) if isinstance(s, ast.Subscript) and isinstance(s.slice, ast.Slice)
+              and "reference_sequence" in ast.unparse(s.value)]
+    for k, s in enumerate(slices):
+        lo = ast.unparse(s.slice.lower) if s.slice.lower is not None else None
+        hi = ast.unparse(s.slice.upper) if s.slice.upper is not None else None
+        n += 1
+        ok = lo == "%s.left" % win and hi == "%s.right" % win
+        ctx.ob(rule, "reference-slice@%d" % k, ok, m.loc(s), "`%s` takes [%s : %s] of the reference (want [%s.left : %s.right])"
+               % (ast.unparse(s)[:70].replace("\n", " "), lo, hi, win, win))
+    ctx.ob(rule, "reference-slice|present", bool(slices), m.loc(fn), "%d slice(s) of the embedded reference sequence" % len(slices))
+    # writes of site columns into the window array
+    k = 0
+    for x in ast.walk(fn):
+        if isinstance(x, ast.Assign) and isinstance(x.targets[0], ast.Subscript) and not isinstance(x.targets[0].slice, ast.Slice):
+            idx = x.targets[0].slice
+            txt = ast.unparse(idx)
+            if "pos" in txt:
+                n += 1
+                ok = isinstance(idx, ast.BinOp) and isinstance(idx.op, ast.Sub) and ast.unparse(idx.right) == "%s.left" % win
+                ctx.ob(rule, "site-column@%d" % k, ok, m.loc(x), "site columns stored at `%s`" % txt)
+                k += 1
+    ctx.ob(rule, "site-column|present", k >= 1, m.loc(fn), "%d site-column store(s)" % k)
+    return n
